@@ -481,6 +481,15 @@ func (env *SpecEnv) typeArg(e Expr) types.Type {
 		if id, ok := t.X.(*EIdent); ok {
 			return env.specType(id.Name + "." + t.Name)
 		}
+	case *ECall:
+		// func(T1, T2): a function type without results
+		if t.Fn == "func" {
+			var ps []string
+			for _, a := range t.Args {
+				ps = append(ps, typeKey(env.typeArg(a)))
+			}
+			return env.specType("func(" + strings.Join(ps, ", ") + ")")
+		}
 	}
 	env.fail("expected a type, got %s", e)
 	return nil
